@@ -47,7 +47,7 @@ def check(run, P):
              "conjunctive record", minimum=3)
     run.rule("C17.free", "default free variables = template variables minus bound "
              "names, used only when none were given; the unifier is built with exactly "
-             "that set", minimum=3)
+             "that set", minimum=4)
     run.rule("C17.nomatch", "the first record is taken only after the emptiness test "
              "that raises ValueError", minimum=1)
     _map_call(run, P)
@@ -293,6 +293,21 @@ def _match(run, P):
     run.ob("C17.free", f, f.node, ok,
            construct="default: variables of the template (incl. function symbols) minus bound names",
            why="only declared free variables may be bound")
+    # every look at "which variables occur" in the matcher counts function symbols
+    U = P.cls(f"{MOD}._ExtendedUnifier")
+    gv_calls = [(fn, x) for fn in [f] + list(U.methods.values()) for x in ast.walk(fn.node)
+                if isinstance(x, ast.Call) and dotted(x.func) in ("get_variables",
+                                                                  "dagrt.utils.get_variables")]
+    bad_gv = [(fn, x) for fn, x in gv_calls
+              if not (isinstance(kwarg(x, "include_function_symbols"), ast.Constant)
+                      and kwarg(x, "include_function_symbols").value is True)]
+    run.ob("C17.free", bad_gv[0][0] if bad_gv else f, bad_gv[0][1] if bad_gv else f.node,
+           bool(gv_calls) and not bad_gv,
+           construct=f"{len(gv_calls)} get_variables() call(s) in match / _ExtendedUnifier, each with "
+                     f"include_function_symbols=True",
+           why="match() treats function symbols as free variables; a test 'this part has "
+               "no free variables' that leaves them out accepts f(c) ~ f(c) although f is "
+               "bound to g elsewhere")
     ctor = [x for x in ast.walk(f.node) if isinstance(x, ast.Call)
             and dotted(x.func) == "_ExtendedUnifier"]
     ok = len(ctor) == 1 and len(ctor[0].args) == 1 and dotted(ctor[0].args[0]) == "free_variable_names"
